@@ -680,8 +680,6 @@ _PROXY_NAMES = ('CStr', 'SInt', 'SBool', 'SBlob', 'SDate', 'STime', 'SDecimal', 
 def _proxy_leak(e):
     """a TypeError raised by native code because it met a proxy is not behaviour of the code
     under test: make the path inconclusive instead of letting spyne handle the exception"""
-    if e.__traceback__ is not None and e.__traceback__.tb_next is not None:
-        return      # raised deeper in python code, not by the native callee itself
     msg = str(e)
     for n in _PROXY_NAMES:
         if n in msg:
